@@ -22,7 +22,8 @@ LEVEL = ("(The reorganisation energy measured from the data of a sum must equal 
          "right-hand operand; data and reorganisation energy of the result must equal the sums over the components "
          "(1e-9 relative), read back in a generated unit; components at different temperatures must be refused. For "
          "single analytic functions the reorganisation energy measured from the data equals the declared one within "
-         "an explicit quadrature model, and the even/odd Fourier parts are even/odd under reflection about zero.")
+         "an explicit quadrature model, and the even/odd Fourier parts are even/odd under reflection about zero."
+         " Later additions: correlation-function matrices; damping-rate parametrisation and closed form of overdamped densities; energy recovered from derived functions; sums of Fourier parts; refused in-place addition leaves the left operand unchanged.")
 NOTE = ("B777/CP29 correlation functions reference a non-existent attribute and cannot be constructed at all on this "
         "tree; they are not generated (unconstructible, not passing). Temperature refusal is asserted for correlation "
         "functions (spectral densities carry no mandatory temperature). <= 4 components, <= 300 time points.")
